@@ -36,4 +36,13 @@ __CPROVER_ensures(C13_ARGS_OK(childPos, parent, childRes) ==>
                    sf_wfdesc(*child, S_RES(parent)) &&
                    sf_pos(*child, S_RES(parent)) == childPos &&
                    (S_VALID_CELL(parent) ==> sf_is_desc(*child, parent, childRes))));
+/* all resolutions at once, safety only (memory, arithmetic, narrowing conversions); the functional contracts above are per pair */
+H3Error childPosToCell_safe(int64_t childPos, H3Index parent, int childRes, H3Index *child)
+__CPROVER_requires(__CPROVER_is_fresh(child, sizeof(H3Index)))
+__CPROVER_assigns(*child)
+__CPROVER_ensures(__CPROVER_return_value <= 15);
+H3Error cellToChildPos_safe(H3Index child, int parentRes, int64_t *out)
+__CPROVER_requires(__CPROVER_is_fresh(out, sizeof(int64_t)))
+__CPROVER_assigns(*out)
+__CPROVER_ensures(__CPROVER_return_value <= 15 && __CPROVER_return_value != S_ERR_FAILED);
 #endif
